@@ -156,6 +156,25 @@ def gen_history(rng):
         dup = json.loads(json.dumps(calls[i]))
         rng.shuffle(dup['crits'])
         calls.insert(i + 1, dup)
+    # strictness belongs to the call that names it: a call with strict=False somewhere in the history, then (at any
+    # distance, possibly across a full reset) a call with an unknown keyword and no strict argument must raise
+    if rng.random() < 0.12:
+        lax = gen_call(rng, obs)
+        lax = dict(lax, bare=False, extra=dict(lax['extra'], strict=False))
+        if rng.random() < 0.5:
+            lax['extra']['bogus_kw'] = 1
+        lax['extra'].pop('bogus_kw', None) if rng.random() < 0.3 else None
+        pos = rng.randint(0, len(calls))
+        calls.insert(pos, lax)
+        tail = [gen_call(rng, obs) for _ in range(rng.randint(0, 2))]
+        tail = [c for c in tail if 'bogus_kw' not in c['extra']]
+        if rng.random() < 0.3:
+            tail.append(dict(bare=True, crits=[], reset=None, extra={}))
+        strict_call = gen_call(rng, obs)
+        strict_call = dict(strict_call, bare=False,
+                           extra={k: v for k, v in strict_call['extra'].items() if k != 'strict'})
+        strict_call['extra']['bogus_kw'] = 1
+        calls = calls[:pos + 1] + tail + [strict_call]
     return dict(obs=obs, calls=calls)
 
 
